@@ -257,3 +257,16 @@ CLAIMED.update({
          "note": STD_NOTE + ORDER_NOTE,
          "technique": "static analysis: exhaustive evaluation of extracted translation regions over the finite kernel-bit domains against reference maps (K6), provenance of the reported fd (K8), sibling agreement of dispatch slots (K7)"},
 })
+CLAIMED.update({
+ "C07": {"level": "other",
+         "text": "Save/restore structure of signal handling: signal-disposition system calls occur only in the four handler functions (who-may-call over all units); the installing "
+                 "sigaction saves the previous disposition into the slot of the very signal it installs (allocated before, released and cleared on failure), the restoring sigaction "
+                 "passes the value loaded from the slot of the same signal, clears the slot and frees once; both signal eventops' del functions reach the restore on every success path "
+                 "and evsig_dealloc_ restores every saved slot; evmap_signal_add_ calls the backend exactly when the per-signal list was empty and links nothing on failure (evaluated), "
+                 "evmap_signal_del_ unlinks and then calls the backend exactly when the list became empty; delivery counting (one increment per byte in that byte's slot, each non-zero "
+                 "count reported with its own signal, EV_SIGNAL and count forwarded); event_signal_closure runs the callback exactly ncalls times unless zeroed or broken (evaluated); "
+                 "event_del_nolock_ and a timeout re-add zero the running count of a signal event for every flag value (evaluated); the process-wide handler target "
+                 "(evsig_base, evsig_base_fd) is always written together and reset only under base == evsig_base. Declined: delivery counts under asynchronous signals, fork+reinit.",
+         "note": STD_NOTE + ORDER_NOTE,
+         "technique": "static analysis: who-may-call (K2), argument provenance and slot ownership (K8/K11), must-pass-through (K3), evaluation of extracted regions over small domains (K6), store pairing under one guard (K5)"},
+})
